@@ -138,6 +138,31 @@ def main(argv=None):
         else:
             print('note: listed finding no longer reproduces on this tree: %s' % o['what'])
 
+    # ---------------------------------------------------------------- regression tier: witnesses of repaired findings
+    # (a 'fixed:' entry suppresses nothing: if the saved input fails again it is reported as a violation)
+    regress = {'replayed': 0, 'failed': []}
+    open_witnesses = set(o['witness'] for o in opens if o['witness'])
+    fdir = os.path.join(VERIF, 'findings')
+    for fn in sorted(os.listdir(fdir)) if os.path.isdir(fdir) else []:
+        rel = os.path.join('findings', fn)
+        if not fn.endswith('.json') or rel in open_witnesses:
+            continue
+        try:
+            data = json.load(open(os.path.join(fdir, fn)))
+        except Exception as e:
+            harness_exit('cannot read %s: %r' % (rel, e))
+        if not isinstance(data, dict) or data.get('property') != prop or 'case' not in data:
+            continue
+        try:
+            out = replay_case(mod, data['case'])
+        except Exception as e:
+            import traceback
+            traceback.print_exc()
+            harness_exit('replaying %s raised %r' % (rel, e))
+        regress['replayed'] += 1
+        if out['status'] == 'fail' and out['bucket'] not in open_keys:
+            regress['failed'].append((rel, out['bucket'], out.get('detail', '')))
+
     # ---------------------------------------------------------------- generation pass
     ncases = args.cases if args.cases is not None else mod.CASES[args.tier]
     nshards = max(1, min(args.shards, ncases if ncases > 0 else args.shards))
@@ -228,6 +253,9 @@ def main(argv=None):
                     json.dump(old, fh, indent=1, sort_keys=True)
             except Exception:
                 pass
+    for rel, bkt, det in regress['failed']:
+        print('--- regression: saved witness %s fails again in bucket %s\n%s' % (rel, bkt, det))
+        print('VIOLATION property=%s replay=%s' % (prop, rel))
     for b, rpath, f in lines:
         d = json.load(open(rpath))
         print('--- bucket %s (%d failing cases)\n%s' % (b, f['count'], d['detail']))
@@ -257,10 +285,12 @@ def main(argv=None):
             'tolerances': getattr(mod, 'TOLERANCES', {}),
             'shards': nshards, 'build': built,
             'fixed_findings_not_suppressed': fixed,
+            'regression_witnesses_replayed': regress['replayed'],
+            'regression_witnesses_failed': [r[0] for r in regress['failed']],
         },
         'assumptions': list(getattr(mod, 'ASSUMPTIONS', [])),
         'wall_s': round(wall, 2),
-        'violations': len(viol),
+        'violations': len(viol) + len(regress['failed']),
     }
     if getattr(mod, 'EXHAUSTIVE', None):
         ev['coverage']['exhaustive'] = bool(mod.EXHAUSTIVE.get(args.tier, False))
@@ -281,7 +311,7 @@ def main(argv=None):
     print('%s %s seed=%d: %d cases (%d distinct non-trivial), pass=%d fail=%d inconclusive=%d, known-excluded=%d, %.1fs'
           % (prop, args.tier, seed, merged['evaluations'], len(nt), merged['status']['pass'],
              merged['status']['fail'], merged['status']['inconclusive'], sum(excluded_known.values()), wall))
-    sys.exit(1 if viol else 0)
+    sys.exit(1 if (viol or regress['failed']) else 0)
 
 
 if __name__ == '__main__':
